@@ -528,6 +528,10 @@ class FunctionDefinition:
 
         args = [*args]
 
+        # bound keywords are removed from kwargs, work on a copy:
+        # the dict belongs to the caller (who may pass it to another function)
+        kwargs = {**kwargs}
+
         if self._self_arg is not _Unbound:
             args.insert(0, self._self_arg)
 
